@@ -943,8 +943,28 @@ func c15IndexVal(h, ix c15Val) (c15Val, *c15Exc) {
 			}
 		}
 		c15Unmod("undocumented field of an exception reason")
-	case *c15Closure, *c15Builtin, c15OK:
-		c15Unmod("indexing a function or $ok")
+	case *c15Closure:
+		// documented fields of a user-defined function
+		if s, ok := ix.(string); ok {
+			strs := func(ss []string) c15Val {
+				l := &c15ListV{}
+				for _, x := range ss {
+					l.Elems = append(l.Elems, x)
+				}
+				return l
+			}
+			switch s {
+			case "arg-names":
+				return strs(h.L.Params), nil
+			case "opt-names":
+				return strs(h.L.OptNames), nil
+			case "opt-defaults":
+				return &c15ListV{append([]c15Val{}, h.Defs...)}, nil
+			}
+		}
+		c15Unmod("field of a function other than arg-names, opt-names, opt-defaults")
+	case *c15Builtin, c15OK:
+		c15Unmod("indexing a builtin function or $ok")
 	}
 	return nil, c15Err("error", "value cannot be indexed")
 }
